@@ -661,7 +661,7 @@ fn main() {
     };
     let schema = ast_to_type_system(&schema_doc);
 
-    let n_projects = if thorough { 120 } else { 44 };
+    let n_projects = if thorough { 80 } else { 44 };
     let mut cases: Vec<CaseOut> = vec![];
     let mut preludes: Vec<String> = vec![];
     let mut distinct: HashSet<String> = HashSet::new();
@@ -854,7 +854,7 @@ fn main() {
     // ---- write shards: each shard carries the prelude of the projects it mentions
     let out = &args.out;
     fs::create_dir_all(out).unwrap();
-    let shard_size = if thorough { 400 } else { 100 };
+    let shard_size = if thorough { 120 } else { 100 };
     let mut k = 0;
     for chunk in cases.chunks(shard_size) {
         let mut v = String::new();
